@@ -290,6 +290,10 @@ def reify_algebra(ctx):
                     return any(isinstance(c, ast.Attribute) and c.attr.startswith("value_skew") for c in ast.walk(n.left))
                 if isinstance(n.ops[0], ast.NotEq):
                     return not any(isinstance(c, ast.Attribute) and c.attr.startswith("value_skew") for c in ast.walk(n.left))
+                if isinstance(n.ops[0], (ast.Gt, ast.GtE)) and not any(isinstance(c, ast.Attribute) and c.attr.startswith("value_skew") for c in ast.walk(n.left)):
+                    return True  # a scale of the reifiable case is positive
+                if isinstance(n.ops[0], (ast.Lt, ast.LtE)) and not any(isinstance(c, ast.Attribute) and c.attr.startswith("value_skew") for c in ast.walk(n.left)):
+                    return False
             return None
 
         # the guard that admits only skew-free matrices: it has to look at BOTH off-diagonal entries
@@ -348,6 +352,26 @@ def reify_algebra(ctx):
                     refused = refused or bool(eval(compile(ast.Expression(body=fresh(st.test)), "<guard>", "eval"), {"__builtins__": {"abs": abs, "min": min, "max": max}}, env))
                 except Exception:
                     undecided = True
+            # the no-skew guard itself may carry the sign condition (`... and scale_x > 0 and scale_y > 0`): evaluate it with
+            # both skews zero and the two scales of the scenario
+            if not refused:
+                class _Skew(ast.NodeTransformer):
+                    def visit_Compare(self, n):
+                        if any(isinstance(c, ast.Attribute) and c.attr.startswith("value_skew") for c in ast.walk(n)):
+                            return ast.copy_location(ast.Constant(value=isinstance(n.ops[0], ast.Eq)), n)
+                        return n
+
+                gt = _Skew().visit(fresh(guard.test))
+                env = {n: (sx if ax == "x" else sy) for n, ax in names.items()}
+                free = {x.id for x in ast.walk(gt) if isinstance(x, ast.Name)} - set(env)
+                if not free and all(isinstance(x, (ast.Expression, ast.BoolOp, ast.And, ast.Or, ast.Not, ast.UnaryOp, ast.USub, ast.BinOp, ast.Mult, ast.Add, ast.Sub, ast.Compare, ast.Lt, ast.LtE,
+                                                   ast.Gt, ast.GtE, ast.Eq, ast.NotEq, ast.Name, ast.Load, ast.Constant)) for x in ast.walk(gt)):
+                    try:
+                        accepts = bool(eval(compile(ast.fix_missing_locations(ast.Expression(body=gt)), "<guard>", "eval"), {"__builtins__": {}}, env))
+                        truth_ = _boolean(guard.test, noskew_leaf)
+                        refused = (not accepts) if truth_ else accepts
+                    except Exception:
+                        pass
             ctx.need(not undecided, "R02.4", "%s: sign guard not evaluated" % qual)
             ctx.ob("R02.4", "%s[negative scale (%+d, %+d) is not folded]" % (qual, sx, sy), refused, "early exits: %s" % "; ".join(ast.unparse(st.test)[:50] for st in exits), fn.lineno,
                    "folding a negative scale into the attributes stores negative width/height/radii: scale(-1,-1) passes a test on the product of the two scales")
